@@ -366,7 +366,13 @@ _redir_map = (
     "err>p",
     "2>p",
 )
-IORedirect = group(group(*_redir_map), f"{group(*_redir_names)}>>?")
+# A merge / to-pipe spelling is an operator only as a whole word: in
+# ``2>out.log``, ``1>err.txt`` or ``a>perf.log`` the text after ``>`` is a file
+# name that merely starts like one of the stream names.
+_redir_map_end = r"(?=[\s;|&<>()\[\]{}]|$)"
+IORedirect = group(
+    group(*_redir_map) + _redir_map_end, f"{group(*_redir_names)}>>?"
+)
 
 _redir_check_map = frozenset(_redir_map)
 
